@@ -21,7 +21,7 @@ WATCHDOG = {"quick": 900, "thorough": 3000}
 SANITIZE = {"quick": ["asan", "bounds"], "thorough": ["asan", "bounds"]}
 SANITIZE_SHARDS = {"quick": 1, "thorough": 1}
 REQUIRED_CLASSES = {t: ["equal_neighbouring_ranges", "extreme_reached_twice", "constant_prefix", "constant_suffix",
-                        "signal_len_2", "plateau_reversal", "float_signal", "closing_tie_decides", "near_equal_neighbours", "signal:other_container_or_dtype"]
+                        "signal_len_2", "plateau_reversal", "float_signal", "closing_tie_decides", "near_equal_neighbours", "signal:other_container_or_dtype", "signal:fed_in_chunks", "find_turns:integer_typed_signal"]
                     for t in ("quick", "thorough")}
 REQUIRED_MONITORS = ["find_turns==ref", "fourpoint:cycles==ref(ordered,values+indices)", "fourpoint:residual==ref",
                      "threepoint:cycle_multiset==ref", "threepoint:residual==ref", "fkm:cycles==ref_hcm(ordered)",
@@ -114,6 +114,17 @@ def run_case(case, ctx):
     ctx.check("find_turns==ref", list(map(int, ti)) == rev and rf.same(tv, x[rev] if rev else np.array([])),
               observed={"index": ti, "values": tv}, expected={"index": rev})
 
+    # the same signal in integer types (counts from a converter, quantised channels): the turning points are the same
+    if np.all(x == np.round(x)) and np.all(np.abs(x) <= 100):
+        ctx.tag("find_turns:integer_typed_signal")
+        ok, bad = True, None
+        for name, arr in (("int8", x.astype(np.int8)), ("uint8", (x - x.min()).astype(np.uint8)), ("int64_large", x.astype(np.int64) * 10 ** 16),
+                          ("int32", x.astype(np.int32) * 10 ** 6)):
+            ti_, _ = general.find_turns(arr)
+            if list(map(int, ti_)) != rev:
+                ok, bad = False, {"dtype": name, "index": ti_}
+        ctx.check("find_turns==ref", ok, observed=bad, expected={"index": rev}, detail="integer typed copies of the signal")
+
     ref_cycles, ref_res = R.fourpoint(idx, val)
     ctx.nontrivial(len(ref_cycles) > 0)
 
@@ -121,14 +132,20 @@ def run_case(case, ctx):
     vary = len(x) % 4 == 1                   # a quarter of the signals: handed over as list / tuple / int64 / float32 / view / Series
     if vary:
         ctx.tag("signal:other_container_or_dtype")
-    r4 = rf.run("fourpoint", [x], vary=vary)
+    # ... and a quarter is fed in consecutive chunks (sample by sample, or 2..4 pieces): the detectors' answer is about the signal
+    feed = [x]
+    if len(x) % 4 == 2 and len(x) > 2:
+        cuts = list(range(1, len(x))) if len(x) % 8 == 2 else sorted(set(int(c) for c in np.linspace(1, len(x) - 1, 1 + len(x) % 3)))
+        feed = [x[a:b] for a, b in zip([0] + cuts, cuts + [len(x)])]
+        ctx.tag("signal:fed_in_chunks")
+    r4 = rf.run("fourpoint", feed, vary=vary)
     got = list(zip(r4.vf.tolist(), r4.vt.tolist(), r4.i_f.tolist(), r4.i_t.tolist()))
     ctx.check("fourpoint:cycles==ref(ordered,values+indices)", got == ref_cycles, observed=got, expected=ref_cycles)
     gres = list(zip(r4.res_idx.tolist(), r4.res.tolist()))
     ctx.check("fourpoint:residual==ref", gres == [(i, v) for i, v in ref_res], observed=gres, expected=ref_res)
 
     # ---- three point: multiset of cycles, same residual
-    r3 = rf.run("threepoint", [x], vary=vary)
+    r3 = rf.run("threepoint", feed, vary=vary)
     got3 = collections.Counter(zip(r3.vf.tolist(), r3.vt.tolist(), r3.i_f.tolist(), r3.i_t.tolist()))
     ctx.check("threepoint:cycle_multiset==ref", got3 == collections.Counter(ref_cycles),
               observed=sorted(got3.elements()), expected=sorted(ref_cycles))
@@ -137,7 +154,7 @@ def run_case(case, ctx):
 
     # ---- FKM: HCM on interior reversals
     hc, hres = R.hcm([sig[i] for i in rev])
-    rk = rf.run("fkm", [x], vary=vary)
+    rk = rf.run("fkm", feed, vary=vary)
     gk = list(zip(rk.vf.tolist(), rk.vt.tolist()))
     ctx.check("fkm:cycles==ref_hcm(ordered)", gk == hc, observed=gk, expected=hc)
     ctx.check("fkm:residual==ref_hcm", rk.res.tolist() == hres, observed=rk.res, expected=hres)
